@@ -29,7 +29,7 @@ using namespace mc;
 using namespace datasketches;
 typedef ebpps_sketch<int> Sk;
 
-static const double WEIGHTS[5] = {1.0, 2.0, 4.0, 3.0, 11.0};   // the streams and the merge menu draw from the first three (dyadic: every quotient is exact); 3 and 11 only in the non-dyadic merge pairs
+static const double WEIGHTS[6] = {1.0, 2.0, 4.0, 3.0, 11.0, 9.0};   // the streams and the merge menu draw from the first three (dyadic: every quotient is exact); 3, 11 and 9 only in the non-dyadic streams and merge pairs
 static const int NSLOT = 3;              // A (subject), B, C (merge operands)
 static const int ID_BASE[NSLOT] = {0, 100, 200};
 static const int MAXN = 12;              // inputs per slot
@@ -95,12 +95,12 @@ static std::vector<int> input_ids(const State& st, int t) {
 struct EbSys {
   typedef ::State State;
   std::vector<OpDef> ops; std::string nm;
-  size_t OP_RESET, OP_NEW[NSLOT][6], OP_UPD[NSLOT][5], OP_ML[NSLOT], OP_MR[NSLOT], OP_RES, OP_RIT, OP_SER[NSLOT], OP_SST[NSLOT];
+  size_t OP_RESET, OP_NEW[NSLOT][6], OP_UPD[NSLOT][6], OP_ML[NSLOT], OP_MR[NSLOT], OP_RES, OP_RIT, OP_SER[NSLOT], OP_SST[NSLOT];
 
   EbSys(): nm("stream") {
     const char* SN = "ABC"; const char* sn = "abc";
     for (int s = 0; s < NSLOT; ++s) for (int k = 1; k <= 5; ++k) { OP_NEW[s][k] = ops.size(); add(K_NEW, s, k, std::string(1, SN[s]) + str(k)); }   // k 4, 5 only in the merge-special pairs
-    for (int s = 0; s < NSLOT; ++s) for (int w = 0; w < 5; ++w) { OP_UPD[s][w] = ops.size(); add(K_UPD, s, w, std::string(1, sn[s]) + str((int)WEIGHTS[w])); }
+    for (int s = 0; s < NSLOT; ++s) for (int w = 0; w < 6; ++w) { OP_UPD[s][w] = ops.size(); add(K_UPD, s, w, std::string(1, sn[s]) + str((int)WEIGHTS[w])); }
     for (int s = 1; s < NSLOT; ++s) { OP_ML[s] = ops.size(); add(K_MERGE_L, s, 0, std::string("Ml") + SN[s]); OP_MR[s] = ops.size(); add(K_MERGE_R, s, 0, std::string("Mr") + SN[s]); }
     OP_RES = ops.size(); add(K_RES, 0, 0, "res");
     OP_RIT = ops.size(); add(K_RIT, 0, 0, "rit");
@@ -686,7 +686,7 @@ static void add_common(Report& rep) {
     "A missed interval would move probability mass between branches and break the exact identities E|result|==c and P(item)==c*w/W (checked at 1e-9 at every node), so the identities double as a completeness check of the discovery. "
     "For merges the re-inserted items carry the average weight W_B/c_B, denominators are larger and no closed bound is claimed; the smallest probability of a single operation's branch is reported per scenario (min_branch_prob_of_one_op)");
   rep.assumptions.push_back("the query operations get_result() and begin() use a grid of 256: their single draw is compared with frac(c), and c=min(k,W/wmax) is a multiple of 1/4 for wmax in {1,2,4} (c itself is checked on every branch)");
-  rep.assumptions.push_back("weights are drawn from {1,2,4} (3 and 11 in the non-dyadic merge pairs only), k from {1,2,3}; items are ints equal to their arrival index (merge operands B, C start at 100, 200)");
+  rep.assumptions.push_back("weights are drawn from {1,2,4} (3, 9 and 11 in the non-dyadic stream walks and merge pairs only), k from {1,2,3}; items are ints equal to their arrival index (merge operands B, C start at 100, 200)");
   rep.assumptions.push_back("probes of one operation start from a copy of the replayed pre-state (library copy constructor); every state that enters a distribution is re-created by replaying its whole history on fresh objects and must have the identical canonical string");
   rep.assumptions.push_back("floating point: c is compared with min(k, W/wmax) at 1e-9 relative; probabilities and expectations at 1e-9; n, cumulative weight and k exactly");
   rep.sets("rule", "Exact distribution over canonical sketch states (k,n,cumulative weight,max weight,rho,c,ordered full items,partial item) carried along every weight sequence (DFS, prefixes shared) and every ordered operand pair of the merge menu; "
@@ -775,20 +775,21 @@ static void add_tasks(std::vector<Task>& tasks, const Config& cfg, const bool q,
     tasks.push_back(t);
   }
   // non-dyadic weights: rho, the average weight of the merged-in items and C are no longer exact quotients, C drifts by an ulp and the
-  // case analysis on the fractional parts meets sums that round to an integer (each pair in both directions; the first two pairs merge
+  // case analysis on the fractional parts meets sums that round to an integer (each pair in both directions; the first three pairs merge
   // a sketch with a copy of its own history)
   {
-    const int nd[4][2][6] = {
+    const int nd[5][2][6] = {
       {{3, 4, 0, 0, -1, -1}, {3, 4, 0, 0, -1, -1}},     // k3 [11,1,1] <-> k3 [11,1,1]       C = 13/11 each, average weight 11.000000000000002
-      {{3, 3, 3, 0, 0, 0}, {3, 3, 3, 0, 0, 0}},         // k3 [3,3,1,1,1] <-> k3 [3,3,1,1,1] C = 3.0000000000000004 before the merge
+      {{1, 5, 0, 3, -1, -1}, {1, 5, 0, 3, -1, -1}},     // k1 [9,1,3] <-> k1 [9,1,3]         a one-ulp fraction is lost in c_ += other.c_ (the cheap witness of the second defect)
+      {{3, 3, 3, 0, 0, 0}, {3, 3, 3, 0, 0, 0}},         // k3 [3,3,1,1,1] <-> k3 [3,3,1,1,1] C = 3.0000000000000004 before the merge (thorough: 1148 leaves)
       {{2, 3, 0, -1, -1, -1}, {3, 0, 3, 0, -1, -1}},    // k2 [3,1] <-> k3 [1,3,1]
       {{3, 0, 4, 0, 1, 0}, {3, 3, 1, -1, -1, -1}},      // k3 [1,11,1,2,1] <-> k3 [3,2]
     };
-    for (int i = 0; i < (q ? 2 : 4); ++i) for (int dir = 0; dir < (i < 2 ? 1 : 2); ++dir) {
+    for (int i = 0; i < (q ? 2 : 5); ++i) for (int dir = 0; dir < (i < 3 ? 1 : 2); ++dir) {
       Operand A, B; Operand* o[2] = {&A, &B};
       for (int s2 = 0; s2 < 2; ++s2) { o[s2]->k = nd[i][s2 ^ dir][0]; for (int j = 1; j < 6 && nd[i][s2 ^ dir][j] >= 0; ++j) o[s2]->w.push_back(nd[i][s2 ^ dir][j]); }
       Task t; t.name = pre + "merge-nondyadic/" + A.label() + "<-" + B.label();
-      t.fn = [A, B, q, &cfg](Report& rep) { Explorer ex(rep, cfg, GRID, q); ex.merge_pair(A, B, 1, false); ex.finish("merge " + A.label() + " <- " + B.label() + " (non-dyadic weights), lvalue and rvalue, then 1 further update"); };
+      t.fn = [A, B, q, &cfg](Report& rep) { Explorer ex(rep, cfg, GRID, q); const int post_n = (!q && A.w.size() + B.w.size() >= 10) ? 0 : 1;   /* thorough node checks after a 10-item merge (1148 leaves) cost ~500 cpu-s per further update */ ex.merge_pair(A, B, post_n, false); ex.finish("merge " + A.label() + " <- " + B.label() + " (non-dyadic weights), lvalue and rvalue, then " + str(post_n) + " further update"); };
       tasks.push_back(t);
     }
   }
